@@ -240,7 +240,39 @@ def rule_width_minus_def(ctx, rid):
                 oks.append(norm(b.expr_top(rv["ops"][0], expand_named=True)))
     want = {"Ord::max(<impl usize>::saturating_sub(self.width, prefix_len), min_width)",
             "Ord::max(min_width, <impl usize>::saturating_sub(self.width, prefix_len))"}
-    ctx.check(len(oks) == 1 and oks[0] in want, rid, "width_minus=max(width−prefix,min)", b.span, b.id, "Ok value: %s" % oks)
+    okc = len(oks) == 1 and oks[0] in want
+    if not okc and sorted(oks) == sorted(["<impl usize>::saturating_sub(self.width, prefix_len)", "min_width"]):
+        # the same maximum written as a branch: Ok(width − prefix) where it is >= min_width, Ok(min_width) where it is <=
+        S, M = "<impl usize>::saturating_sub(self.width, prefix_len)", "min_width"
+        okc = True
+        for bb in b.reachable():
+            for st in b.stmts(bb):
+                rv = st.get("rv") or {}
+                if not (st["k"] == "assign" and st["lhs"]["l"] == 0 and rv.get("agg") == "adt" and rv.get("variant") == "Ok"):
+                    continue
+                val = norm(b.expr_top(rv["ops"][0], expand_named=True))
+                facts_ = set()
+                for a in b.reachable():
+                    if b.term(a)["k"] != "switch" or not b.dominates(a, bb) or a == bb:
+                        continue
+                    for s2 in b.succ(a):
+                        if not (b.dominates(s2, bb) and len(b.pred(s2)) == 1):
+                            continue
+                        truth, src = edge_is_true(b, a, s2)
+                        if truth is None or not src or src[0] != "bin":
+                            continue
+                        x, y = norm(b.expr_top(src[1]["a"], expand_named=True)), norm(b.expr_top(src[1]["b"], expand_named=True))
+                        op = src[1]["bin"]
+                        if not truth:
+                            op = {"Lt": "Ge", "Le": "Gt", "Gt": "Le", "Ge": "Lt"}.get(op, "?")
+                        if op in ("Gt", "Ge"):
+                            op, x, y = {"Gt": "Lt", "Ge": "Le"}[op], y, x
+                        facts_.add((op, x, y))   # x < y or x <= y
+                if val == S:
+                    okc = okc and bool(facts_ & {("Le", M, S), ("Lt", M, S)})
+                else:
+                    okc = okc and bool(facts_ & {("Le", S, M), ("Lt", S, M)})
+    ctx.check(okc, rid, "width_minus=max(width−prefix,min)", b.span, b.id, "Ok value: %s" % oks)
 
 
 def rule_prefix_pairing(ctx, rid):
